@@ -1561,17 +1561,51 @@ func (s *S3Proxy) ListBucketsAndOwners(ctx context.Context) ([]s3response.Bucket
 // frontend verifies the request (signature, payload hash, checksums) when
 // its body reader reaches the end; the sdk reports a failed body read as a
 // send failure, which would turn those refusals into internal errors.
+//
+// The last byte of the body is held back until the reader has ended
+// cleanly: when the verification fails, the endpoint has received one byte
+// less than the announced length and cannot commit the upload.
 type bodyErrReader struct {
-	r   io.Reader
-	err error
+	r    io.Reader
+	err  error
+	held []byte
+	done bool
 }
 
 func (b *bodyErrReader) Read(p []byte) (int, error) {
-	n, err := b.r.Read(p)
-	if err != nil && err != io.EOF && b.err == nil {
-		b.err = err
+	if len(p) == 0 {
+		return 0, nil
 	}
-	return n, err
+	if b.done {
+		return 0, io.EOF
+	}
+	for {
+		n := copy(p, b.held)
+		b.held = b.held[:0]
+		m, err := b.r.Read(p[n:])
+		n += m
+		switch {
+		case err == io.EOF:
+			b.done = true
+			if n == 0 {
+				return 0, io.EOF
+			}
+			return n, nil
+		case err != nil:
+			if b.err == nil {
+				b.err = err
+			}
+			if n > 0 {
+				n--
+			}
+			return n, err
+		case n > 1:
+			b.held = append(b.held, p[n-1])
+			return n - 1, nil
+		case n == 1:
+			b.held = append(b.held, p[0])
+		}
+	}
 }
 
 func (b *bodyErrReader) apiError() (s3err.APIError, bool) {
